@@ -67,6 +67,19 @@ theorem frame_roundtrip (f : Frame) (rest : Bytes) (hwf : Frame.WF f) (hid : f.k
     (hlen : f.payload.length ≤ Frame.maxParsePayload) :
     Frame.read (Frame.write f ++ rest) = .frame f rest := Frame.read_write f rest hwf hid hlen
 
+/-- Frames are uniquely decodable inside a stream: two well-formed frames followed by arbitrary
+remaining bytes give the same byte string only if the frames and the remainders are equal — a
+stream of frames can be cut in one way only. -/
+theorem frame_stream_unique (f g : Frame) (r₁ r₂ : Bytes)
+    (hf : Frame.WF f) (hg : Frame.WF g) (hfi : f.kind.id < 2^62) (hgi : g.kind.id < 2^62)
+    (hfl : f.payload.length ≤ Frame.maxParsePayload)
+    (hgl : g.payload.length ≤ Frame.maxParsePayload)
+    (h : Frame.write f ++ r₁ = Frame.write g ++ r₂) : f = g ∧ r₁ = r₂ := by
+  have h₁ := Frame.read_write f r₁ hf hfi hfl
+  rw [h, Frame.read_write g r₂ hg hgi hgl] at h₁
+  injection h₁ with h₂ h₃
+  exact ⟨h₂.symm, h₃.symm⟩
+
 /-- `write` emits exactly `write_size` bytes -/
 theorem frame_size_exact (f : Frame) : (Frame.write f).length = Frame.writeSize f :=
   Frame.write_length f
@@ -91,6 +104,16 @@ theorem stream_header_roundtrip (h : StreamHeader) (rest : Bytes) (hwf : StreamH
     (hid : h.kind.id < 2^62) :
     StreamHeader.read (StreamHeader.write h ++ rest) = .header h rest :=
   StreamHeader.read_write h rest hwf hid
+
+/-- stream headers are uniquely decodable in front of arbitrary stream content -/
+theorem stream_header_unique (a b : StreamHeader) (r₁ r₂ : Bytes)
+    (ha : StreamHeader.WF a) (hb : StreamHeader.WF b)
+    (hai : a.kind.id < 2^62) (hbi : b.kind.id < 2^62)
+    (h : StreamHeader.write a ++ r₁ = StreamHeader.write b ++ r₂) : a = b ∧ r₁ = r₂ := by
+  have h₁ := StreamHeader.read_write a r₁ ha hai
+  rw [h, StreamHeader.read_write b r₂ hb hbi] at h₁
+  injection h₁ with h₂ h₃
+  exact ⟨h₂.symm, h₃.symm⟩
 
 theorem stream_header_size_exact (h : StreamHeader) :
     (StreamHeader.write h).length = StreamHeader.writeSize h := StreamHeader.write_length h
